@@ -254,13 +254,20 @@ def check_two_docs(acc, stripe=None):
                 continue
             ta = "\n".join(CAT[i][-1] for i in a)
             tb = "\n".join(CAT[i][-1] for i in b)
-            for with_replace in (False, True):
+            for with_replace in (False, True, "first entry and first string removed through equal twins"):
                 case = {"two_docs": [list(a), list(b)], "rolled_back_replace": with_replace}
                 acc.trace(3)
                 acc.case(nontrivial_key=("two", a, b, with_replace))
                 try:
                     lib = bibtexparser.parse_string(ta, parse_stack=[])
-                    if with_replace:
+                    if with_replace and with_replace is not True:
+                        # the caller names the blocks to remove by equal objects (the same text parsed again)
+                        twin = bibtexparser.parse_string(ta, parse_stack=[])
+                        for held, named in ((lib.entries[:1], twin.entries[:1]), ([x for x in lib.blocks if type(x) is String][:1], [x for x in twin.blocks if type(x) is String][:1])):
+                            if held:
+                                lib.remove(named[0])
+                        ta_after = None
+                    elif with_replace:
                         ents = lib.entries
                         if len(ents) >= 2 and ents[0].key != ents[1].key:
                             try:
@@ -276,7 +283,12 @@ def check_two_docs(acc, stripe=None):
                     # (every view is read before the second part arrives: views are functions of the blocks held NOW)
                     _ = (lib.entries, lib.strings, lib.preambles, lib.comments, lib.failed_blocks, lib.entries_dict, lib.strings_dict)
                     lib = bibtexparser.parse_string(tb, parse_stack=[], library=lib)
-                    one = bibtexparser.parse_string(ta + "\n" + tb, parse_stack=[])
+                    if with_replace not in (False, True):
+                        # what is held now: A without the two removed blocks (their former duplicates stay flagged), then B
+                        # - judged view against blocks below, and: a key no entry holds any more is free for B's first holder
+                        one = None
+                    else:
+                        one = bibtexparser.parse_string(ta + "\n" + tb, parse_stack=[])
                     views = lambda L: ([id(x) for x in L.entries], sorted(id(x) for x in L.strings),  # (no order is promised for strings)
                                          [id(x) for x in L.failed_blocks], sorted(L.entries_dict), sorted(L.strings_dict))
                     derived = lambda L: ([id(x) for x in L.blocks if type(x) is Entry], sorted(id(x) for x in L.blocks if type(x) is String), [id(x) for x in L.blocks if isinstance(x, ParsingFailedBlock)], sorted({x.key for x in L.blocks if type(x) is Entry}), sorted({x.key for x in L.blocks if type(x) is String}))
@@ -290,7 +302,12 @@ def check_two_docs(acc, stripe=None):
                 except Exception as e:
                     acc.exception(e, case, "parse_string(library=...)")
                     continue
-                sig = lambda L: [(type(x).__name__, getattr(x, "key", None), x.raw) for x in L.blocks]
+                # (a duplicate-key block exposes the first block: the position of that very object among the blocks held)
+                pos = lambda L, o: next((n for n, y in enumerate(L.blocks) if y is o), -1)
+                if one is None:
+                    acc.step(("two", a, b), "twins", tuple(type(x).__name__ for x in lib.blocks))
+                    continue
+                sig = lambda L: [(type(x).__name__, getattr(x, "key", None), x.raw) + ((pos(L, x.previous_block), type(x.ignore_error_block).__name__, x.ignore_error_block.raw) if isinstance(x, DuplicateBlockKeyBlock) else ()) for x in L.blocks]
                 acc.step(("two", a, b), with_replace, tuple(x[0] for x in sig(lib)))
                 if sig(lib) != sig(one) or sorted(lib.entries_dict) != sorted(one.entries_dict) or sorted(lib.strings_dict) != sorted(one.strings_dict):
                     acc.violation(
